@@ -173,6 +173,23 @@ def _random(draw):
     return {'s': s}
 
 
+LONG_UNITS = ['# ::snt ', '(a / alpha :ARG0 (b / beta) ', ':op1 "a long string constant ', 'x~e.1 y~2 ', '\u00e9\xa0 ']
+
+
+def _long_chunks(tier):
+    return [{'u': i} for i in range(len(LONG_UNITS))]
+
+
+def _long_cases(ch):
+    """the same long line at several line numbers of one input, and again (at other line numbers) in later inputs lexed by
+    the same process: a token's line number and column are those of THIS occurrence"""
+    u = LONG_UNITS[ch['u']]
+    for n in (40, 71, 72, 73, 100, 128, 300, 1200):
+        line = (u * (n // len(u) + 1))[:n].rstrip('\\')
+        for s in (line, 'x\n' + line, line + '\n' + line, line + '\n\n' + line + '\n' + line, 'y z\n\n\n' + line + '\r\n' + line):
+            yield {'s': s}
+
+
 def stages(tier):
     L = 4 if tier == 'quick' else 5
     return [
@@ -184,6 +201,9 @@ def stages(tier):
              lambda tier: strings.prefix_chunks(ALPHA, L - 1, 1),
              lambda ch: ({'s': s, 'debug': True} for s in strings.strings_of(ch, ALPHA, L - 1, 1)),
              'every string of length <= %d over the same alphabet with the penman logger at DEBUG' % (L - 1)),
+        Enum('repeated-long-lines', _long_chunks, _long_cases,
+             'lines of 40..1200 characters (comments, graph text, strings, alignments, non-ASCII) repeated at several line numbers within one '
+             'input and across inputs of the same process'),
         Hyp('random', _random, 6000, 500000),
         Fuzz('coverage-guided-bytes', 0, 2000000, decode=lambda data: {'s': data.decode('utf-8', 'ignore')}, seeds=corpus.test_strings(60),
              dictionary=corpus.DICTIONARY, max_len=80),
